@@ -1055,17 +1055,26 @@ func c01Primitives(c *Ctx, tr *an.Tracer) {
 				return 1, true
 			})
 			got := map[string]bool{}
+			// with the id fixed the branches on it are decided and what stays reachable is the way this id takes:
+			// the error is recorded somewhere on it (in the returning block, or in a block before a shared return)
+			setsErr := false
 			for _, b := range rd.Blocks {
 				if !reach[b] {
 					continue
 				}
-				setsErr := false
 				for _, in := range b.Instrs {
 					if st, ok := in.(*ssa.Store); ok {
 						if fa, ok := st.Addr.(*ssa.FieldAddr); ok && an.FieldName(fa.X.Type(), fa.Field) == "tl.Decoder.err" {
 							setsErr = true
 						}
 					}
+				}
+			}
+			for _, b := range rd.Blocks {
+				if !reach[b] {
+					continue
+				}
+				for _, in := range b.Instrs {
 					if ret, ok := an.AsReturn(in); ok && len(ret.Results) == 1 {
 						if k, ok := an.RetVal(ret, 0).(*ssa.Const); ok {
 							if setsErr {
